@@ -13,6 +13,31 @@ PROOF_NOTE = ("Trusted: Lean 4.33 kernel + axioms propext/Classical.choice/Quot.
               "tables/constants (Strophe/Gen). ")
 
 CLAIMED = {
+    "C08": dict(
+        engine="tls", design="5.8",
+        technique="Lean 4 theorems over the decision logic of tls_openssl.c/conn.c above OpenSSL, with OpenSSL's path validation and name matching as a parameter under the named hypothesis H-openssl (checked on every recorded handshake); the real tls_openssl.c against an in-process OpenSSL server with certificates generated per case; ground-truth Python oracle with its own RFC 6125 matcher",
+        text=("secured_iff / secured_iff_good / secured_sound (after conn_tls_start the connection is secured iff the handshake "
+              "completed and: no failure was reported, or the trust flag is set, or the handler accepted EACH failing certificate; "
+              "for any number of failures and any handler), no_callback_aborts, reject_one_aborts, trust_flag_skips_verification, "
+              "handler_sees_failures_in_order, config_verifies_peer_unless_trusted / config_pins_host / config_no_partial_wildcards "
+              "(the OpenSSL configuration read back from the real code), refused_domains (empty / leading-dot domain refused), "
+              "failed_start_restores / failed_handshake_marks_connection, never_cleartext_after_failure_{starttls,legacy,raw}, "
+              "data_over_tls_only_if_secured, same_transition_as_conn_machine (ties this model to Model/Conn.lean). Every run covers "
+              "the full 7x4x3x2 table of the property plus 23 certificate kinds x 8 handler modes, CA dir/env store, reconnect "
+              "rounds. Two defects found and repaired (empty / dot domain switches the host check off)."),
+        note=PROOF_NOTE + "PARTIAL: X.509 path validation, validity and RFC 6125 name matching are OpenSSL's and enter as hypothesis H-openssl (Spec/OpenSsl.lean), which is checked against the real OpenSSL on every case together with an independent Python matcher; the theorems are about libstrophe's configuration and decision logic."),
+    "C11": dict(
+        engine="hnd", design="5.11",
+        technique="Lean 4 theorems over a statement-level model of handler.c for arbitrary handler sets, filters, scripted behaviours (a function of callback x userdata and invocation index), stanza sequences and clock advances, against a specification written from the property text; differential execution of the real handler.c under ASan + independent Python reference",
+        text=("fire_exact (a dispatch that returns invoked exactly: id handlers first, then the matching stanza handlers, each once, in "
+              "registration order, as registered at dispatch start minus those deleted by earlier callbacks, user handlers gated "
+              "by the negotiation), match_def, fire_total, added_during_dispatch_skips_current, duplicate_kept_once, "
+              "returned_false_is_gone / deleted_is_gone / gone_never_again, timed_not_early, timed_fires_when_due (+ context-wide), "
+              "timed_only_connected, timed_stamps_{add,reset,fire}, no_stale_access_partial + stale_only_if_self_delete, "
+              "pin_structure (nine structural facts extracted from handler.c). Two defects found and repaired (D7 stale id-list "
+              "head: use-after-free; D27 handler added in the id phase saw the stanza); one known finding (a callback deleting "
+              "its own callback function: C11:self-delete, machine-checked witness no_stale_access_false)."),
+        note=PROOF_NOTE + "no_stale_access holds under the hypothesis that no callback deletes its own callback function from the list it is dispatched from (known finding otherwise); hash bucket order, allocation failure and a clock running backwards are not modelled."),
     "C05": dict(
         engine="conn", design="5.5",
         technique="Lean 4: the counter equals a specification over the ghost history of dispatched stanzas in every reachable state (invariant proof over all operation histories), step theorems for <r/> -> <a/>, global theorem over the log of written elements for the reported h; tied to conn.c/auth.c by differential execution + model-free monitor over the REAL parser's events; companion pass on engine q",
